@@ -207,9 +207,9 @@ fn main() {
                 }
                 let p = prepared(&f[10..16]);
                 let mode = match f[1] {
-                    "rq" => TsigMode::Request { algorithm: a, key: key.into() },
-                    "rs" => TsigMode::Response { algorithm: a, request_mac: pmac.into(), key: key.into() },
-                    "sb" => TsigMode::Subsequent { algorithm: a, prior_mac: pmac.into(), key: key.into() },
+                    "rq" => TsigMode::Request { algorithm: a, key: key.clone().into() },
+                    "rs" => TsigMode::Response { algorithm: a, request_mac: pmac.clone().into(), key: key.clone().into() },
+                    "sb" => TsigMode::Subsequent { algorithm: a, prior_mac: pmac.clone().into(), key: key.clone().into() },
                     "un" => TsigMode::Unsigned { algorithm: a.name().to_owned() },
                     _ => panic!("bad mode"),
                 };
@@ -223,11 +223,46 @@ fn main() {
                 if !ev.is_empty() && ev[2] == "0" {
                     set_e(&mut w);
                 }
-                w.set_tsig(mode, p).unwrap();
-                if !ev.is_empty() && ev[2] == "1" {
-                    set_e(&mut w);
-                }
-                let (len, mac) = w.finish_with_mac();
+                // V=p : after set_tsig the Writer is turned into a Template and a new Writer is made from it with
+                //       try_from_template (the TSIG mode must be kept)
+                // V=s:<rq|rs|sb>:<mac0> (mode sb only): set_tsig is called in mode <m0> with prior/request MAC <mac0>, the
+                //       Writer becomes a Template and the message is continued through
+                //       try_from_template_as_tsig_subsequent(template, <pmac>): it must be signed exactly like mode sb
+                let v = f.iter().find(|x| x.starts_with("V=")).map(|x| &x[2..]).unwrap_or("-");
+                let vv: Vec<&str> = if v == "-" { vec![] } else { v.split(':').collect() };
+                let mut buf2 = vec![0u8; 4096];
+                let (len, mac, buf) = if vv.is_empty() {
+                    w.set_tsig(mode, p).unwrap();
+                    if !ev.is_empty() && ev[2] == "1" {
+                        set_e(&mut w);
+                    }
+                    let (len, mac) = w.finish_with_mac();
+                    (len, mac, buf)
+                } else {
+                    let mode0 = if vv[0] == "s" {
+                        let m0 = unhex(vv[2]);
+                        match vv[1] {
+                            "rq" => TsigMode::Request { algorithm: a, key: key.clone().into() },
+                            "rs" => TsigMode::Response { algorithm: a, request_mac: m0.into(), key: key.clone().into() },
+                            "sb" => TsigMode::Subsequent { algorithm: a, prior_mac: m0.into(), key: key.clone().into() },
+                            _ => panic!("bad V mode"),
+                        }
+                    } else {
+                        mode
+                    };
+                    w.set_tsig(mode0, p).unwrap();
+                    let t = w.into_template();
+                    let mut w2 = if vv[0] == "s" {
+                        Writer::try_from_template_as_tsig_subsequent(buf2.as_mut_slice(), &t, pmac.clone().into()).unwrap()
+                    } else {
+                        Writer::try_from_template(buf2.as_mut_slice(), &t).unwrap()
+                    };
+                    if !ev.is_empty() && ev[2] == "1" {
+                        set_e(&mut w2);
+                    }
+                    let (len, mac) = w2.finish_with_mac();
+                    (len, mac, buf2)
+                };
                 let msg = &buf[..len];
                 let mut r = Reader::try_from(msg).unwrap();
                 for _ in 0..r.qdcount() {
